@@ -263,3 +263,75 @@ def register(R, tier="quick"):
                ensures=[mcr_get_post], returns="int",
                canaries=[Canary("row-and-reader-swapped", "self._readers[x][y]", "self._readers[x][x]")],
                note="row d of the combined column is row d - offset of the owning segment's column")
+
+    # ------------------------------------------------------------------ merge renumbering of postings (SegmentWriter._process_posts)
+    W = "whoosh.writing"
+    PF, PT, PD, PW, PV = (z3.Function("post_" + n, IntS, IntS) for n in ("field", "text", "docnum", "weight", "value"))
+    INSCHEMA = z3.Function("field_in_schema", IntS, z3.BoolSort())
+    DM = z3.Function("docmap", IntS, IntS)
+    KEPT = z3.Function("kept_before", IntS, IntS)
+
+    class SchemaStub(Abstract):
+        def havoc(self, I):
+            pass
+
+        def contains(self, I, name):
+            return INSCHEMA(to_z3(name))
+
+    class DocMap(Abstract):
+        def havoc(self, I):
+            pass
+
+        def is_none(self, I):
+            return False
+
+        def getitem(self, I, idx, node=None):
+            return DM(to_z3(idx))
+
+    class PostItems(Abstract):
+        def __init__(self, I):
+            self.n = z3.Int(I.fresh_name("nposts"))
+            I.assume(self.n >= 0)
+            I.assume(KEPT(0) == 0)
+
+        def havoc(self, I):
+            pass
+
+        def a_n(self, I):
+            return self.n
+
+        def iter_protocol(self, I):
+            return 0, self.n, 1, (lambda i: (PF(i), PT(i), PD(i), PW(i), PV(i)))
+
+    def pp_setup(I, mapped):
+        return {"self": Obj(I.repo.klass(W, "SegmentWriter"), {"schema": SchemaStub()}), "items": PostItems(I),
+                "startdoc": z3.Int("startdoc"), "docmap": DocMap() if mapped else None, "mapped": mapped}
+
+    def good_yield(I, y, i, env):
+        f, t, d, w, v = y
+        newdoc = DM(PD(i)) if env["mapped"] else env["startdoc"] + PD(i)
+        return z3.And(INSCHEMA(PF(i)), to_z3(f) == PF(i), to_z3(t) == PT(i), to_z3(d) == newdoc, to_z3(w) == PW(i), to_z3(v) == PV(i))
+
+    from pyvc.values import SpecFn
+
+    def kept_before(I, i):
+        """KEPT(i) = number of postings among the first i whose field is in the schema; defined by KEPT(0) = 0 and
+        KEPT(k+1) = KEPT(k) + [field k in schema]; the defining equation is instantiated at every i mentioned."""
+        i = to_z3(i)
+        I.assume(KEPT(i + 1) == KEPT(i) + z3.If(INSCHEMA(PF(i)), 1, 0))
+        return KEPT(i)
+
+    R.contract(W + ":SegmentWriter._process_posts", props=["C06", "C10"],
+               setup=pp_setup, variants=[dict(mapped=True), dict(mapped=False)],
+               spec_funcs={"good_yield": SpecFn("good_yield", lambda I, y, i: good_yield(I, y, i, I.root_frame.env)),
+                           "kept_before": SpecFn("kept_before", kept_before)},
+               ghost="ok = True\nny = 0\n",
+               on_yield="ok = ok and good_yield(_y, _i)\nny = ny + 1\n",
+               ensures=["ok", "ny == kept_before(items.n)"],
+               loops={0: LoopSpec(index="_i", inv=["ok", "ny == kept_before(_i)", "_i <= items.n"], havoc=["ok", "ny"])},
+               canaries=[Canary("startdoc-not-added", "newdoc = startdoc + docnum", "newdoc = docnum"),
+                         Canary("docmap-ignored", "newdoc = docmap[docnum]", "newdoc = startdoc + docnum"),
+                         Canary("weight-and-value-swapped", "yield (fieldname, text, newdoc, weight, vbytes)",
+                                "yield (fieldname, text, newdoc, vbytes, weight)")],
+               note="merging: every posting of a field still in the schema is re-emitted exactly once, in order, with only "
+                    "its document number replaced (docmap[d] when the source has deletions, startdoc + d otherwise)")
